@@ -1,5 +1,6 @@
 # C11 — account selectors match whole account names and never alter remaining figures
-import json, os, re as pyre
+import json, os, warnings, re as pyre
+warnings.filterwarnings("ignore", category=FutureWarning)
 from common import *
 import journal as J
 
